@@ -286,7 +286,13 @@ impl<C: Config> World<C> {
                       else { bytes.chunks(C::E::SZ).map(Self::dec).collect() };
                 let e3: Vec<(i64, i64)> = v.iter().map(|e| Self::dec(e.as_bytes())).collect();
                 // the three read views (typed slice, byte view, erased iterator) are logged as one when they agree
-                vw = e1 == e2 && e1 == e3 && bytes.len() == v.len() * C::E::SZ;
+                // ... and so must the unchecked typed view, the typed view's own len / capacity / is_empty and both base pointers
+                let tu = unsafe { v.downcast_ref_unchecked::<C::E>() };
+                let e4_ok = tu.as_slice().len() == e1.len() && tu.as_slice().iter().zip(e1.iter()).all(|(x, y)| x.decode_self() == *y);
+                let meta_ok = t.len() == v.len() && t.capacity() == v.capacity() && t.is_empty() == v.is_empty() && v.is_empty() == (v.len() == 0)
+                    && tu.as_ptr() == t.as_ptr() && v.element_typeid() == TypeId::of::<C::E>() && v.element_layout() == std::alloc::Layout::new::<C::E>()
+                    && v.element_drop().is_some() == std::mem::needs_drop::<C::E>();
+                vw = e1 == e2 && e1 == e3 && bytes.len() == v.len() * C::E::SZ && e4_ok && meta_ok;
                 if !vw { self.notes.push(format!("views:{}:{:?}|{:?}|{:?}", VNAMES[i], e1, e2, e3)); }
                 el = e1.iter().map(|d| json!([d.0, d.1])).collect::<Vec<_>>();
                 let base = t.as_ptr() as usize;
@@ -423,7 +429,7 @@ impl<C: Config> World<C> {
                 let i = usz(a, "i");
                 let v = self.v(x);
                 let r: Option<(i64, i64)> = match st(a, "kind") {
-                    "get" => v.get(i).map(|e| Self::elem_obs(&e, out)),
+                    "get" => v.get(i).map(|e| { let c = e.clone(); Self::elem_obs(&e, out); Self::elem_obs(&c, out) }),
                     "at" => Some(Self::elem_obs(&v.at(i), out)),
                     "get_mut" => v.get_mut(i).map(|e| Self::elem_obs(&e, out)),
                     "at_mut" => Some(Self::elem_obs(&v.at_mut(i), out)),
